@@ -18,7 +18,8 @@ CHECKS = {
              "strand, parent intervals to relative locations) are interpreted by the analyser on one representative of "
              "every order type of 1-2 block layouts (3 in thorough: empty, adjacent, overlapping blocks, both strands, "
              "every position and sub-interval) and compared with the oracle. This is a static decision of the kernels "
-             "on a finite abstract domain, not a proof of the block-walk loops for arbitrary block counts.",
+             "on a finite abstract domain, not a proof of the block-walk loops for arbitrary block counts."
+             " Added: relative-location form with multi-block queries (every query of 1-3 blocks over the reference span, both entry points, both optimize_blocks values) and scan_windows (C01.R5); maps of reverse_strand()/reset_strand() results derived from an object whose lazily built parts already exist. The affine rule C01.R1 is a strengthening-only rule (adds the all-integers argument when the source form is recognised, never alarms).",
         note="Trusted: CPython ast, sa/interp.py, the enumeration oracle in sa/rules/c01.py. Representatives use "
              "non-uniform (triangular) spacing so that mirror-symmetric layouts do not hide errors. Layouts with more "
              "blocks than enumerated are not decided.",
@@ -33,7 +34,8 @@ CHECKS = {
              "class invariants (single x single, 2-block compound x single both ways, 2x2 blocks; 3 blocks in thorough), "
              "every strand pair and flag combination, and compared with position-set semantics and the structural "
              "well-formedness of every returned location. For comparison-only kernels (checked syntactically) this is "
-             "exhaustive for all integers.",
+             "exhaustive for all integers."
+             " Added: three-block receivers against 1-3-block arguments as all pairs of position sets over a small universe, and closest-block distance in both receiver orders over a wider universe (C02.R6); derived operations extend/shift/reverse/reset_strand/gaps_location/distance_to on all order types (C02.R5); _EmptyLocation identities (C02.R4).",
         note="Trusted: CPython ast, sa/interp.py, the oracle in sa/rules/c02.py. Not decided: operands with more blocks "
              "than enumerated, the cgranges path (cgranges is not installed), distance arithmetic, parents.",
         design="DESIGN.md section 4, C02",
@@ -44,7 +46,8 @@ CHECKS = {
         text="For every order type of 1-2 block layouts (3 in thorough), both strands, over a genome containing every "
              "letter of NT_EXTENDED_GAPPED in both cases, the analyser interprets extraction, strand reversal, splitting "
              "into relative sub-intervals and the derived-sequence operations (all slice bound forms, reverse complement, "
-             "append) and compares with the image oracle; a derived sequence's recorded location must spell its characters.",
+             "append) and compares with the image oracle; a derived sequence's recorded location must spell its characters."
+             " Unstranded locations must be refused. The literal-slice rule C03.R1 only writes a note (all-integers strengthening).",
         note="Trusted: CPython ast, sa/interp.py (Bio.Seq is modelled as str), IUPAC tables of C15. U is identified with T "
              "for complement round trips. Other alphabets' tables are decided in C15.",
         design="DESIGN.md section 4, C03",
@@ -56,7 +59,8 @@ CHECKS = {
              "location is lifted by type and by sequence and compared with the composed enumeration, composed strand, "
              "ancestor parent and preserved sequence; refusals (missing ancestor, non-contiguous) are checked; "
              "liftover_location_to_seq_chunk_parent is compared with 'the part inside the chunk' for every window "
-             "(block structure retained, EmptyLocation outside).",
+             "(block structure retained, EmptyLocation outside)."
+             " Added: the same hierarchies given as an explicit Parent chain whose Sequence objects carry no / a naming-only / a shallow parent; chunk-to-chunk re-lifts (same window on the opposite strand, shifted window); refusal of incomplete hierarchies by interpretation (C04.R1).",
         note="Trusted: CPython ast, sa/interp.py. Depth and layouts are bounded as stated.",
         design="DESIGN.md section 4, C04",
     ),
@@ -67,7 +71,8 @@ CHECKS = {
              "vector in {0,1,2}^k the analyser interprets codon locations, coding sequence (value and type, before and after "
              "the codon cache is filled), translation per table, num_codons, stop detection and chromosome windows, and "
              "compares with a walker written from the property statement; construct_frames_from_location is checked to "
-             "describe one uninterrupted frame.",
+             "describe one uninterrupted frame."
+             " Added: designed coding sequences with every initiator of any table as first codon under every table and with the table omitted, repeated initiators downstream (C05.RT); chunk_relative_frames values on plus- and minus-strand chunks (C05.RC).",
         note="Trusted: CPython ast, sa/interp.py, the walker in sa/rules/c05.py, tables of C15. One known finding "
              "(single-exon window offset).",
         design="DESIGN.md section 4, C05",
@@ -78,7 +83,8 @@ CHECKS = {
         text="Twins are built on the whole chromosome and on every chunk window inside the analyser's interpreter: "
              "chromosome-level answers must be identical, the chunk-relative location/sequence/codons must be the "
              "chromosome answers restricted to the chunk, and an interval outside the chunk must be empty. Digest call "
-             "sites are checked not to read chunk-relative accessors.",
+             "sites are checked not to read chunk-relative accessors."
+             " Added: coding transcripts in the twin comparison, minus-strand chunks for CDS twins, chunk_relative_frames values, and identifier equality of chunk-built and chromosome-built twins for all seven classes by interpretation (C07.RG; four known findings).",
         note="Trusted: CPython ast, sa/interp.py, reference walker of C05. Known findings: single-exon codon offset, "
              "stand-alone CDS outside the chunk, collection-level digests of the chunk-relative location.",
         design="DESIGN.md section 4, C07",
@@ -90,7 +96,8 @@ CHECKS = {
              "its name encodes, that cds<->transcript conversions use one genomic leg each way and that every use of the "
              "optional CDS is guarded. RK interprets TranscriptInterval construction and its coordinate API for every CDS "
              "placement on every order type of 1-2 exon layouts (3 in thorough), both strands, against a base-enumeration "
-             "oracle: commutation, inverses, rejection, aa index, UTR/CDS partition, introns, empty UTRs.",
+             "oracle: commutation, inverses, rejection, aa index, UTR/CDS partition, introns, empty UTRs."
+             " Added: every <src>_(pos|interval)_to_<dst> wrapper found by name is interpreted over its whole small domain on parent-less, chromosome and offset-chunk objects (C06.RW); start frames 0/1/2 in RK; non-coding transcripts through every method that touches the optional CDS (C06.R3i). The structural wiring / composition / guard-dominance rules are strengthening-only (never alarm).",
         note="Trusted: CPython ast, sa/interp.py, oracle in sa/rules/c06.py. digest_object is hooked out (identifiers are "
              "C08). Chunk-cut transcripts and larger layouts are not decided.",
         design="DESIGN.md section 4, C06",
@@ -103,7 +110,8 @@ CHECKS = {
              "and chunk (also with completely_within set); the dictionary form must be reproduced. digest_object is "
              "interpreted: guid invariant under every rotation/reversal of qualifier key and value insertion order (incl. "
              "case-twin keys), sensitive to coordinates, strand, frames, qualifier values. Structural: to_dict keys are "
-             "model fields and every model field is forwarded.",
+             "model fields and every model field is forwarded."
+             " Added: value-less qualifier flags at every level, comparison of the re-built object's qualifiers and guid, hash-order taint for lists built from sets reaching a digest, to_dict keys compared with the model fields by interpretation (C08.R2).",
         note="Trusted: CPython ast, sa/interp.py (hashlib/uuid run natively), the marshmallow-dataclass load model stated "
              "above. Hash-seed independence follows because the interpreter rejects str() of a multi-element set. One known "
              "finding (VariantInterval 'guid' key).",
@@ -116,7 +124,8 @@ CHECKS = {
              "boundaries; collections with and without sequence) and all GUID / identifier queries (all small subsets) are "
              "interpreted and compared with a coordinate oracle: exact membership, documented bounds, retained member "
              "dictionaries, member sequences restricted to the new bounds, InvalidQueryError for invalid ranges. Attribute "
-             "reads on union members are checked against every member class.",
+             "reads on union members are checked against every member class."
+             " Added: the small collection on a sequence chunk and on a chunk with declared bounds wider than the chunk, a variant collection among the members.",
         note="Trusted: CPython ast, sa/interp.py. The cgranges path is not taken (not installed).",
         design="DESIGN.md section 4, C09",
     ),
@@ -127,7 +136,8 @@ CHECKS = {
              "(chromosome and chunk parents) every public zero-argument accessor and a list of binary/export operations are "
              "interpreted in forward and reverse order; every answer (value and type) must equal a fresh twin's and the "
              "recursive non-memo state of operands and arguments must be unchanged. Structural: every constructor field of "
-             "the lru_cache'd Parent is hashed; key classes hash what they compare; no identity comparison on cached objects.",
+             "the lru_cache'd Parent is hashed; key classes hash what they compare; no identity comparison on cached objects."
+             " Added: construction of a container around existing children leaves them unchanged (C10.RC); module-level and class-level containers keep their contents between interpreted calls, so caches with incomplete keys show up as history dependence.",
         note="Trusted: CPython ast, sa/interp.py (cached properties are memoised per object as methodtools does; "
              "functools.lru_cache eviction itself is trusted). Histories are the enumerated orders, not all permutations.",
         design="DESIGN.md section 4, C10",
@@ -139,7 +149,8 @@ CHECKS = {
              "collections with special characters in keys and values, on chromosome and chunk, both modes: nine columns, "
              "1-based inclusive coordinates of the source blocks, strand, phase only on CDS rows and frame-derived, unique "
              "IDs, Parent defined earlier, rows ordered by start, exact attribute sets per row, reserved keys refused or "
-             "dropped, repeatable export, header/FASTA layout. Escape tables decided by constant folding.",
+             "dropped, repeatable export, header/FASTA layout. Escape tables decided by constant folding."
+             " Added: re-parse leg - the exported text is loaded into a native model of the gffutils database and the library's own _parse_genes is interpreted on it (C11.RP; one known finding).",
         note="Trusted: CPython ast, sa/interp.py (re runs natively), the decoder in sa/rules/c11.py. The re-parse leg through "
              "gffutils is not decided (third-party reader).",
         design="DESIGN.md section 4, C11",
@@ -151,7 +162,8 @@ CHECKS = {
              "Location.to_biopython are interpreted for generated gene models x flavour x update_translations: record types per "
              "flavour, locations with exactly the source blocks and strand, identifiers in qualifiers, /translation equal to the "
              "reference translation under the flavour's table. Structural: GENBANK_GENE_FEATURES vs enums, keys the parser "
-             "reads for the recovered attributes vs keys the writer stores, identical stages of the three parse() pipelines.",
+             "reads for the recovered attributes vs keys the writer stores, identical stages of the three parse() pipelines."
+             " Added: a second export of the same models on another sequence in the same interpreter must show that sequence's proteins.",
         note="Trusted: CPython ast, sa/interp.py, the Biopython record model in sa/rules/c12.py. SeqIO's file syntax and reader are "
              "third-party and not analysed, so the file round trip and parser-mode agreement on content are not decided. Known "
              "finding: /codon_start is never written.",
@@ -174,7 +186,8 @@ CHECKS = {
                   "5-column reader and compared with an oracle from model and genome",
         text="For generated collections x flavour x translation table the .tbl text is produced by interpretation and parsed: "
              "header, feature sequence per flavour, merged source blocks as 1-based inclusive intervals 5'->3', '<' / '>' marks, "
-             "codon_start, pseudo, unique stepping locus tags, identical output for equal seeds (0 included).",
+             "codon_start, pseudo, unique stepping locus tags, identical output for equal seeds (0 included)."
+             " Added: reproducibility with generated locus-tag prefix / lab name and a disturbed process-wide generator.",
         note="Trusted: CPython ast, sa/interp.py, reference walker of C05, parser in sa/rules/c17.py.",
         design="DESIGN.md section 4, C17",
     ),
@@ -184,7 +197,8 @@ CHECKS = {
         text="extract_feature_name_id is interpreted for all subsets (<= 3) of the nine recognised keys in every order and three "
              "spellings with look-alike keys interleaved; extract_feature_types and merge_qualifiers against set semantics; "
              "tables: lower-cased member names = literal sets = anchored IGNORECASE alternatives, distinct priorities; the "
-             "locus-tag groupby consumes lists that every store fills sorted by locus tag (or order-preserving filters).",
+             "locus-tag groupby consumes lists that every store fills sorted by locus tag (or order-preserving filters)."
+             " Added: interval-level merge (_merge_qualifiers / export_qualifiers with parent qualifiers) as key-wise union with unchanged inputs (C18.R5).",
         note="Trusted: CPython ast, sa/interp.py. Whole-record permutation invariance of GenBank parses (Biopython objects) is "
              "not decided beyond the sortedness rule. Known finding: rank-0 truthiness.",
         design="DESIGN.md section 4, C18",
@@ -195,7 +209,8 @@ CHECKS = {
         text="Every enumerated corruption (coordinates, counts, frames, parents, alphabets, variants, duplicates, empties, "
              "undirected strands, window arguments) must end in a BioCantorException subclass / ValueError / TypeError, never in "
              "an object or an internal error; all raise sites use documented classes; self-recursive functions are classified "
-             "(data-sized recursion is reported); optional constructor attributes guarded consistently.",
+             "(data-sized recursion is reported); optional constructor attributes guarded consistently."
+             " Added: shifts past the parent sequence on nested layouts; malformed codons constructed twice.",
         note="Trusted: CPython ast, sa/interp.py. A general may-raise analysis is out of reach: only the enumerated corruptions "
              "and the named structural sources of internal errors are decided.",
         design="DESIGN.md section 4, C19",
@@ -205,7 +220,8 @@ CHECKS = {
         text="Generated child sets (1-3 members, strand mix, coding mix, primary flags none/one/two, ties in CDS and spliced "
              "length, with and without gene_type; no parent / chromosome / offset chunk) are built by interpretation: span, "
              "is_coding, feature_types, primary member and its accessors, merged transcript / CDS / feature blocks (also "
-             "chunk-relative), children order and inferred bounds are compared with the oracle.",
+             "chunk-relative), children order and inferred bounds are compared with the oracle."
+             " Added: a second gene built around the same transcript objects infers its primary member from its own children only.",
         note="Trusted: CPython ast, sa/interp.py. Known findings: merging children on both strands raises ValueError.",
         design="DESIGN.md section 4, C20",
     ),
@@ -225,7 +241,8 @@ CHECKS = {
              "the assigned bin of every contained or overlapping interval (checked exhaustively over the band pairs). "
              "Structural rules extend this to all coordinates: same fmt and own chromosome (start,end) at every stored-bin "
              "site, one=False at the query site, start/stop arithmetic independent of `one`, strict-mode-only pre-filter, "
-             "constant relations; chunk-built twins with large offsets store the chromosome bin.",
+             "constant relations; chunk-built twins with large offsets store the chromosome bin."
+             " The call-site rules are decided by interpretation: every class that assigns self.bin is constructed at bin-boundary layouts without parent and on an offset chunk (C16.R1); strict and relaxed range queries at bin-boundary coordinates (C16.R3).",
         note="Trusted: CPython ast, sa/interp.py, monotonicity of x -> (x-c)>>k. Identity with kent's numbering is not "
              "decided (gffutils offsets, inclusive stop).",
         design="DESIGN.md section 4, C16",
@@ -236,7 +253,8 @@ CHECKS = {
         text="Complete for the finite domains the property names: every table row is compared with reference tables "
              "embedded in the checker, and every table-driven function is interpreted by the analyser on every element "
              "of its domain (64 codons, 4096 IUPAC triplets, all letters/cases, frames x shifts, strand pairs). "
-             "A static decision over a finite domain; no repository code is executed.",
+             "A static decision over a finite domain; no repository code is executed."
+             " Added: codons are constructed through the library's own __new__/__init__; interned codons keep their answers whatever other spellings are constructed, refused spellings are refused every time (C15.R3c); CDSInterval.translate uses exactly the start set of the table it is given (C15.R8).",
         note="Trusted: CPython ast; the analyser's interpreter (sa/interp.py); the embedded reference tables (standard "
              "code in TCAG order, IUPAC expansion/complement, NCBI start codons of tables 1 and 11). U is identified "
              "with T for the involution clause (U->A->T is what the IUPAC complement does).",
